@@ -87,6 +87,35 @@ func (e *codecEngine) dec(name, durs string, good []string, hs, in string, accep
 	e.rep.Count(fmt.Sprintf("dec/%s/%v", name, accepted))
 }
 
+// bundle is one CPair case: encoder a on input gave mid, decoder b on mid gave decoded, and the
+// values in rts came back through a library / file / database path.
+type bundle struct {
+	a, b, durs, input, mid, decoded string
+	rts                             []string
+	ok                              bool
+}
+
+func (b *bundle) back(rec string) {
+	if rec == b.decoded {
+		return
+	}
+	for _, r := range b.rts {
+		if r == rec {
+			return
+		}
+	}
+	b.rts = append(b.rts, rec)
+}
+
+func (e *codecEngine) pair(b *bundle, what string) {
+	if !b.ok {
+		return
+	}
+	e.add(fmt.Sprintf("CPair \"%s\" \"%s\" %s %s %s %s %s", b.a, b.b, b.durs, b.input, b.mid, b.decoded, emit.List(b.rts)), b.a+" / "+b.b+": "+what)
+	e.rep.Count("pair/" + b.a)
+	e.rep.Count(fmt.Sprintf("pair-paths/%s/%d", b.a, len(b.rts)))
+}
+
 func (e *codecEngine) fail(class, what string, in interface{}) { e.rep.Fail(class, what, in) }
 
 func groupDurs(g *key.Group) string { return dursOf(g.Period, g.CatchupPeriod) }
@@ -136,14 +165,19 @@ func (e *codecEngine) groupAll(g *key.Group, poly interface{}, rtAllowed bool) {
 	wantHash := cloneGroup(g).Hash()
 	// --- TOML structs
 	gt := cloneGroup(g).TOML().(*key.GroupTOML)
-	e.mir("Group.TOML", durs, orig, cv.rec(gt), "group")
+	bt := &bundle{a: "Group.TOML", b: "Group.FromTOML", durs: durs, input: orig, mid: cv.rec(gt)}
+	bp := &bundle{a: "Group.ToProto", b: "GroupFromProto", durs: durs, input: orig}
 	g2 := new(key.Group)
 	if err := g2.FromTOML(gt); err != nil {
 		e.fail("C20-group-toml-decode-error", "Group.FromTOML rejects the TOML form of a valid group", in)
+		e.mir("Group.TOML", durs, orig, cv.rec(gt), "group")
 	} else {
-		e.mir("Group.FromTOML", durs, cv.rec(gt), cv.rec(g2), "group")
+		bt.decoded, bt.ok = cv.rec(g2), true
 	}
 	if !rtAllowed {
+		e.pair(bt, "group (conversion functions only)")
+		gp := cloneGroup(g).ToProto(common.GetAppVersion())
+		e.mir("Group.ToProto", durs, orig, cv.rec(gp), "group")
 		return
 	}
 	check := func(path string, d *key.Group, err error) {
@@ -152,9 +186,11 @@ func (e *codecEngine) groupAll(g *key.Group, poly interface{}, rtAllowed bool) {
 			e.fail("C20-group-"+path+"-error", "a valid group does not survive "+path, in)
 			return
 		}
-		e.rt(map[string]string{"toml": "Group.TOML", "file": "Group.TOML", "proto": "Group.ToProto", "wire": "Group.ToProto"}[path],
-			map[string]string{"toml": "Group.FromTOML", "file": "Group.FromTOML", "proto": "GroupFromProto", "wire": "GroupFromProto"}[path],
-			durs, orig, cv.rec(d), path)
+		if path == "toml" || path == "file" {
+			bt.back(cv.rec(d))
+		} else if path == "wire" {
+			bp.back(cv.rec(d))
+		}
 		if !normGroup(g).Equal(cloneGroup(d)) || !cloneGroup(d).Equal(normGroup(g)) {
 			e.fail("C20-group-"+path+"-not-equal", "group decoded from "+path+" is not Equal to the original", in)
 		}
@@ -186,11 +222,14 @@ func (e *codecEngine) groupAll(g *key.Group, poly interface{}, rtAllowed bool) {
 	}
 	check("file", g4, err)
 	// --- protobuf
+	e.pair(bt, "group")
 	gp := cloneGroup(g).ToProto(common.GetAppVersion())
-	e.mir("Group.ToProto", durs, orig, cv.rec(gp), "group")
+	bp.mid = cv.rec(gp)
 	g5, err := key.GroupFromProto(gp, nil)
 	if err == nil {
-		e.mir("GroupFromProto", durs, cv.rec(gp), cv.rec(g5), "group")
+		bp.decoded, bp.ok = cv.rec(g5), true
+	} else {
+		e.mir("Group.ToProto", durs, orig, cv.rec(gp), "group")
 	}
 	check("proto", g5, err)
 	wire, err := proto.Marshal(gp)
@@ -202,13 +241,13 @@ func (e *codecEngine) groupAll(g *key.Group, poly interface{}, rtAllowed bool) {
 		}
 	}
 	check("wire", g6, err)
+	e.pair(bp, "group")
 	// --- pieces: first node, its identity, the distributed key
 	n0 := g.Nodes[0]
 	nt := n0.TOML().(*key.NodeTOML)
-	e.mir("Node.TOML", "[]", cv.rec(n0), cv.rec(nt), "node")
 	nb := new(key.Node)
 	if err := nb.FromTOML(nt); err == nil {
-		e.mir("Node.FromTOML", "[]", cv.rec(nt), cv.rec(nb), "node")
+		e.pair(&bundle{a: "Node.TOML", b: "Node.FromTOML", durs: "[]", input: cv.rec(n0), mid: cv.rec(nt), decoded: cv.rec(nb), ok: true}, "node")
 		if !nb.Equal(n0) {
 			e.fail("C20-node-toml-not-equal", "node decoded from TOML is not Equal to the original", in)
 		}
@@ -216,15 +255,13 @@ func (e *codecEngine) groupAll(g *key.Group, poly interface{}, rtAllowed bool) {
 		e.fail("C20-node-toml-error", "Node.FromTOML rejects the TOML form of a valid node", in)
 	}
 	it := n0.Identity.TOML().(*key.PublicTOML)
-	e.mir("Identity.TOML", "[]", cv.rec(n0.Identity), cv.rec(it), "identity")
 	ib := new(key.Identity)
 	if err := ib.FromTOML(it); err == nil {
-		e.mir("Identity.FromTOML", "[]", cv.rec(it), cv.rec(ib), "identity")
+		e.pair(&bundle{a: "Identity.TOML", b: "Identity.FromTOML", durs: "[]", input: cv.rec(n0.Identity), mid: cv.rec(it), decoded: cv.rec(ib), ok: true}, "identity")
 	}
 	ip := n0.Identity.ToProto()
-	e.mir("Identity.ToProto", "[]", cv.rec(n0.Identity), cv.rec(ip), "identity")
 	if id2, err := key.IdentityFromProto(ip, g.Scheme); err == nil {
-		e.mir("IdentityFromProto", "[]", cv.rec(ip), cv.rec(id2), "identity")
+		e.pair(&bundle{a: "Identity.ToProto", b: "IdentityFromProto", durs: "[]", input: cv.rec(n0.Identity), mid: cv.rec(ip), decoded: cv.rec(id2), ok: true}, "identity")
 		if !id2.Equal(n0.Identity) || !bytes.Equal(id2.Signature, n0.Identity.Signature) {
 			e.fail("C20-identity-proto-not-equal", "identity decoded from protobuf differs from the original", in)
 		}
@@ -236,10 +273,9 @@ func (e *codecEngine) groupAll(g *key.Group, poly interface{}, rtAllowed bool) {
 	}
 	if g.PublicKey != nil {
 		dt := g.PublicKey.TOML().(*key.DistPublicTOML)
-		e.mir("DistPublic.TOML", "[]", cv.rec(g.PublicKey), cv.rec(dt), "dist key")
 		d2 := new(key.DistPublic)
 		if err := d2.FromTOML(g.Scheme, dt); err == nil {
-			e.mir("DistPublic.FromTOML", "[]", cv.rec(dt), cv.rec(d2), "dist key")
+			e.pair(&bundle{a: "DistPublic.TOML", b: "DistPublic.FromTOML", durs: "[]", input: cv.rec(g.PublicKey), mid: cv.rec(dt), decoded: cv.rec(d2), ok: true}, "dist key")
 			if !d2.Equal(g.PublicKey) || !bytes.Equal(d2.Hash(), g.PublicKey.Hash()) {
 				e.fail("C20-distpublic-toml-not-equal", "distributed key decoded from TOML differs from the original", in)
 			}
@@ -351,12 +387,12 @@ func (e *codecEngine) pairAll(s *crypto.Scheme, realSig bool) {
 	p := e.g.pair(s, realSig)
 	in := map[string]interface{}{"scheme": s.Name, "signed": realSig}
 	pt := p.TOML().(*key.PairTOML)
-	e.mir("Pair.TOML", "[]", cv.rec(p), cv.rec(pt), "pair")
+	bq := &bundle{a: "Pair.TOML", b: "Pair.FromTOML", durs: "[]", input: cv.rec(p), mid: cv.rec(pt)}
 	p2 := new(key.Pair)
 	if err := p2.FromTOML(pt); err != nil {
 		e.fail("C20-pair-toml-error", "Pair.FromTOML rejects a valid pair", in)
 	} else {
-		e.mir("Pair.FromTOML", "[]", cv.rec(pt), cv.rec(p2), "pair")
+		bq.decoded, bq.ok = cv.rec(p2), true
 	}
 	st := key.NewFileStore(e.tmp, fmt.Sprintf("p%d", e.n))
 	e.n++
@@ -375,7 +411,8 @@ func (e *codecEngine) pairAll(s *crypto.Scheme, realSig bool) {
 		e.fail("C20-pair-file-error", "a key pair does not survive the key store", in)
 		return
 	}
-	e.rt("Pair.TOML", "Pair.FromTOML", "[]", cv.rec(p), cv.rec(p3), "file")
+	bq.back(cv.rec(p3))
+	e.pair(bq, "key pair through the key store")
 	e.rt("Identity.TOML", "Identity.FromTOML", "[]", cv.rec(p.Public), cv.rec(p3.Public), "file")
 	if !p3.Key.Equal(p.Key) || !p3.Public.Equal(p.Public) || !bytes.Equal(p3.Public.Signature, p.Public.Signature) || p3.Public.Scheme.Name != s.Name {
 		e.fail("C20-pair-file-not-equal", "key pair reloaded from the key store differs from the one saved", in)
@@ -392,12 +429,12 @@ func (e *codecEngine) shareAll(s *crypto.Scheme, sh *key.Share) {
 	cv := e.cv
 	in := map[string]interface{}{"scheme": s.Name, "commits": len(sh.Commits), "index": sh.Share.I}
 	stt := sh.TOML().(*key.ShareTOML)
-	e.mir("Share.TOML", "[]", cv.rec(sh), cv.rec(stt), "share")
+	bs := &bundle{a: "Share.TOML", b: "Share.FromTOML", durs: "[]", input: cv.rec(sh), mid: cv.rec(stt)}
 	s2 := new(key.Share)
 	if err := s2.FromTOML(stt); err != nil {
 		e.fail("C20-share-toml-error", "Share.FromTOML rejects a valid share", in)
 	} else {
-		e.mir("Share.FromTOML", "[]", cv.rec(stt), cv.rec(s2), "share")
+		bs.decoded, bs.ok = cv.rec(s2), true
 	}
 	st := key.NewFileStore(e.tmp, fmt.Sprintf("s%d", e.n))
 	e.n++
@@ -416,7 +453,8 @@ func (e *codecEngine) shareAll(s *crypto.Scheme, sh *key.Share) {
 		e.fail("C20-share-file-error", "a share does not survive the key store", in)
 		return
 	}
-	e.rt("Share.TOML", "Share.FromTOML", "[]", cv.rec(sh), cv.rec(s3), "file")
+	bs.back(cv.rec(s3))
+	e.pair(bs, "share through the key store")
 	if cv.rec(s3) != cv.rec(sh) || !s3.Share.V.Equal(sh.Share.V) || s3.Share.I != sh.Share.I {
 		e.fail("C20-share-file-not-equal", "share reloaded from the key store differs from the one saved", in)
 	}
@@ -441,27 +479,27 @@ func (e *codecEngine) infoAll(info *chain.Info, rtAllowed bool) {
 	orig := cv.rec(info)
 	want := info.Hash()
 	p := info.ToProto(nil)
-	e.mir("Info.ToProto", "[]", orig, cv.rec(p), "info")
+	bp := &bundle{a: "Info.ToProto", b: "InfoFromProto", durs: "[]", input: orig, mid: cv.rec(p)}
+	bj := &bundle{a: "Info.MarshalJSON", b: "Info.UnmarshalJSON", durs: "[]", input: orig}
 	i2, err := chain.InfoFromProto(p)
 	if err == nil {
-		e.mir("InfoFromProto", "[]", cv.rec(p), cv.rec(i2), "info")
+		bp.decoded, bp.ok = cv.rec(i2), true
 	}
 	js, jerr := json.Marshal(info)
-	if jerr == nil {
-		if r, err := jsonRecord(js, e.infoJSONLeaves("Info.MarshalJSON", false)); err == nil {
-			e.mir("Info.MarshalJSON", "[]", orig, r, "info")
-		}
-	}
 	var i3 chain.Info
 	if jerr == nil {
 		jerr = json.Unmarshal(js, &i3)
 	}
 	if jerr == nil {
-		if r, err := jsonRecord(js, e.infoJSONLeaves("Info.UnmarshalJSON", true)); err == nil {
-			e.mir("Info.UnmarshalJSON", "[]", r, cv.rec(&i3), "info")
+		// the JSON object is the mirror value of both directions (the decoder's struct has more members)
+		r1, e1 := jsonRecord(js, e.infoJSONLeaves("Info.UnmarshalJSON", true))
+		if e1 == nil {
+			bj.mid, bj.decoded, bj.ok = r1, cv.rec(&i3), true
 		}
 	}
 	if !rtAllowed {
+		e.pair(bp, "info (conversion functions only)")
+		e.pair(bj, "info (conversion functions only)")
 		return
 	}
 	check := func(path string, d *chain.Info, err error, a, b string) {
@@ -470,7 +508,11 @@ func (e *codecEngine) infoAll(info *chain.Info, rtAllowed bool) {
 			e.fail("C20-info-"+path+"-error", "a chain info does not survive "+path, in)
 			return
 		}
-		e.rt(a, b, "[]", orig, cv.rec(d), path)
+		if a == "Info.ToProto" {
+			bp.back(cv.rec(d))
+		} else {
+			bj.back(cv.rec(d))
+		}
 		if !info.Equal(d) {
 			e.fail("C20-info-"+path+"-not-equal", "chain info decoded from "+path+" is not Equal to the original", in)
 		}
@@ -499,6 +541,8 @@ func (e *codecEngine) infoAll(info *chain.Info, rtAllowed bool) {
 		i5, err = chain.InfoFromJSON(&buf)
 	}
 	check("hexjson", i5, err, "Info.ToProto", "InfoFromProto")
+	e.pair(bp, "info")
+	e.pair(bj, "info")
 }
 
 // infoRejects: decode-side check of Info.UnmarshalJSON
@@ -560,16 +604,20 @@ func (e *codecEngine) beaconAll(b *common.Beacon) {
 	in := map[string]interface{}{"round": b.Round, "siglen": len(b.Signature), "prev": b.PreviousSig != nil, "prevlen": len(b.PreviousSig)}
 	orig := cv.rec(b)
 	p := beacon.VerifBeaconToProto(b, "some-id")
-	e.mir("beaconToProto", "[]", orig, cv.rec(p), "beacon")
 	b2 := beacon.VerifProtoToBeacon(p)
-	e.mir("protoToBeacon", "[]", cv.rec(p), cv.rec(b2), "beacon")
+	bp := &bundle{a: "beaconToProto", b: "protoToBeacon", durs: "[]", input: orig, mid: cv.rec(p), decoded: cv.rec(b2), ok: true}
+	bj := &bundle{a: "Beacon.MarshalJSON", b: "Beacon.UnmarshalJSON", durs: "[]", input: orig}
 	check := func(path string, d *common.Beacon, err error, a, c string) {
 		e.rep.Count("monitor/beacon/" + path)
 		if err != nil {
 			e.fail("C20-beacon-"+path+"-error", "a beacon does not survive "+path, in)
 			return
 		}
-		e.rt(a, c, "[]", orig, cv.rec(d), path)
+		if a == "beaconToProto" {
+			bp.back(cv.rec(d))
+		} else {
+			bj.back(cv.rec(d))
+		}
 		if !b.Equal(d) {
 			e.fail("C20-beacon-"+path+"-not-equal", "beacon decoded from "+path+" is not Equal to the original", in)
 		}
@@ -584,14 +632,15 @@ func (e *codecEngine) beaconAll(b *common.Beacon) {
 	js, err := b.Marshal()
 	if err == nil {
 		if r, jerr := jsonRecord(js, e.mirs["Beacon.MarshalJSON"].DstLeaves); jerr == nil {
-			e.mir("Beacon.MarshalJSON", "[]", orig, r, "beacon")
 			b3 := new(common.Beacon)
 			if err = b3.Unmarshal(js); err == nil {
-				e.mir("Beacon.UnmarshalJSON", "[]", r, cv.rec(b3), "beacon")
+				bj.mid, bj.decoded, bj.ok = r, cv.rec(b3), true
 			}
 			check("json", b3, err, "Beacon.MarshalJSON", "Beacon.UnmarshalJSON")
 		}
 	}
+	e.pair(bp, "beacon")
+	e.pair(bj, "beacon")
 }
 
 // ---------------------------------------------------------------- DKG database records
@@ -619,12 +668,12 @@ func (e *codecEngine) stateAll(store *dkg.BoltStore, d *dkg.DBState) {
 		"beacon_id": d.BeaconID, "epoch": d.Epoch}
 	orig := cv.rec(cloneState(d))
 	t := cloneState(d).TOML()
-	e.mir("DBState.TOML", durs, orig, cv.rec(&t), "state")
+	bd := &bundle{a: "DBState.TOML", b: "DBStateTOML.FromTOML", durs: durs, input: orig, mid: cv.rec(&t)}
 	d2, err := t.FromTOML()
 	if err != nil {
 		e.fail("C20-dbstate-toml-error", "DBStateTOML.FromTOML rejects the TOML form of a valid state", in)
 	} else {
-		e.mir("DBStateTOML.FromTOML", durs, cv.rec(&t), cv.rec(d2), "state")
+		bd.decoded, bd.ok = cv.rec(d2), true
 	}
 	expect := func() string {
 		x := cloneState(d)
@@ -639,7 +688,7 @@ func (e *codecEngine) stateAll(store *dkg.BoltStore, d *dkg.DBState) {
 			e.fail("C20-dbstate-"+path+"-error", "a DKG state does not survive the "+path+" bucket of the database", in)
 			return
 		}
-		e.rt("DBState.TOML", "DBStateTOML.FromTOML", durs, orig, cv.rec(got), path)
+		bd.back(cv.rec(got))
 		// DBState.Equals compares KeyShare with reflect.DeepEqual, which is false for any two distinct
 		// *key.Share values (crypto.Scheme holds func values; points may be in different projective
 		// representations). The share is therefore compared by the deep comparison below and Equals
@@ -677,6 +726,7 @@ func (e *codecEngine) stateAll(store *dkg.BoltStore, d *dkg.DBState) {
 		}
 		check("finished", got, err)
 	}
+	e.pair(bd, "DKG state "+d.State.String())
 }
 
 // ---------------------------------------------------------------- run
@@ -722,7 +772,7 @@ func (e *codecEngine) finish(outDir, prefix string, per int) error {
 	for i := 0; i < 6 && i < len(e.descr); i++ {
 		e.rep.Sample(e.descr[i*len(e.descr)/6], 8)
 	}
-	if err := e.rep.Shard(outDir, prefix, []string{"From DV Require Import Model.ByteEnc Model.CodecVocab Model.Codec Corr.CodecCorr."}, "ccase", "mismatches", e.cases, e.descr, per); err != nil {
+	if err := e.rep.Shard(outDir, prefix, []string{"From DV Require Import Model.ByteEnc Model.CodecVocab Model.Codec Corr.CodecCorr.", "Open Scope string_scope."}, "ccase", "mismatches", e.cases, e.descr, per); err != nil {
 		return err
 	}
 	return e.rep.Write(outDir)
@@ -764,7 +814,7 @@ func RunCodec(outDir string, seed int64, tier string) error {
 			}
 			grp, poly := g.group(sch, o)
 			e.groupAll(grp, poly, true)
-			if k != 1 || tier == "thorough" {
+			if tier == "thorough" {
 				e.groupRejects(grp)
 			}
 			if grp.PublicKey != nil {
@@ -774,6 +824,13 @@ func RunCodec(outDir string, seed int64, tier string) error {
 					e.infoRejects(info)
 				}
 				e.shareAll(sch, g.share(sch, poly, grp.Len()))
+			}
+		}
+		if tier != "thorough" {
+			// decode-side checks on small groups (the checks do not look at the keys)
+			for _, n := range []int{1 + si} {
+				grp, _ := g.group(sch, groupOpts{n: n, withKey: n%2 == 1, withSeed: true, id: ids[(si+n)%len(ids)]})
+				e.groupRejects(grp)
 			}
 		}
 		// sub-second period: conversions must agree with the model; the protobuf / JSON forms
@@ -802,14 +859,16 @@ func RunCodec(outDir string, seed int64, tier string) error {
 		// DKG states in every status, with and without final group / share
 		for k := 0; k < nStates; k++ {
 			for sti, st := range allStatuses {
-				if tier != "thorough" && (sti+si)%len(g.sch) != 0 && st != dkg.Complete && st != dkg.Fresh {
-					// quick tier: every status is visited with every scheme across the run, Complete and Fresh with all
-					if (sti+si)%2 != 0 {
-						continue
-					}
+				// quick tier: every status once without and once with final group / share, schemes in rotation
+				if tier != "thorough" && sti%len(g.sch) != si {
+					continue
 				}
-				e.stateAll(store, g.dbState(sch, st, false))
-				e.stateAll(store, g.dbState(sch, st, true))
+				mx := 10
+				if tier != "thorough" {
+					mx = 2
+				}
+				e.stateAll(store, g.dbStateN(sch, st, false, mx))
+				e.stateAll(store, g.dbStateN(sch, st, true, mx))
 			}
 		}
 	}
